@@ -8,6 +8,7 @@ import (
 	"fmt"
 	"math/rand"
 	"reflect"
+	"sort"
 
 	"github.com/trustbloc/sidetree-go/pkg/document"
 	"github.com/trustbloc/sidetree-go/pkg/patch"
@@ -87,7 +88,8 @@ func simpleValue(r *rand.Rand, depth int) interface{} {
 	case k == 2:
 		return float64(r.Intn(1000))
 	case k == 3:
-		return []string{"v", "x y", "value-1", "", "päß"}[r.Intn(5)]
+		// ordinary text incl. characters that are special to formatters, HTML escaping and shells
+		return []string{"v", "x y", "value-1", "", "päß", "100%", "https://example.com/my%20page", "hello %s %d %v", "50%% off", "<a href='x'>&amp;</a>", "back\\slash \"quoted\"", "line\nbreak\ttab", "$HOME `id` {{x}}"}[r.Intn(13)]
 	case k == 4 && depth > 0:
 		a := A{}
 		for i := r.Intn(4); i > 0; i-- {
@@ -173,6 +175,7 @@ func conformantOps(r *rand.Rand, doc M) A {
 			names = append(names, k)
 		}
 	}
+	sort.Strings(names) // map order must not leak into the case stream
 	ops := A{}
 	for i := 1 + r.Intn(3); i > 0; i-- {
 		switch r.Intn(6) {
@@ -349,6 +352,12 @@ func genC11(seed int64, tier string) []caseOut {
 				default:
 					opsList = append(opsList, A{M{"op": kind, "path": ptr, "value": A{M{"id": "evil"}}}})
 				}
+				// the same operation at later positions of a list: after operations without and with a `from`
+				first := opsList[0][0]
+				opsList = append(opsList,
+					A{M{"op": "add", "path": "/note", "value": "x"}, first},
+					A{M{"op": "copy", "from": "/other", "path": "/note"}, M{"op": "test", "path": "/other/k", "value": 1.0}, first},
+					A{first, M{"op": "add", "path": "/note", "value": "x"}})
 				for _, ops := range opsList {
 					if r.Intn(3) != 0 && i > 0 {
 						continue
@@ -481,6 +490,12 @@ func genC14(seed int64, tier string) []caseOut {
 		{"bytes:remove-keys-without-ids", M{"action": "remove-public-keys", "publicKeys": A{}}, false},
 		{"bytes:not-an-object", A{"action"}, false},
 		{"bytes:value-null", M{"action": "add-public-keys", "publicKeys": nil}, true},
+		{"bytes:action-member-capitalised", M{"Action": "add-public-keys", "publicKeys": A{}}, false},
+		{"bytes:action-member-upper-case", M{"ACTION": "replace", "document": M{}}, false},
+		{"bytes:invalid-action-plus-capitalised-one", M{"action": "invalid", "Action": "ietf-json-patch", "patches": A{}}, false},
+		{"bytes:value-member-upper-case", M{"action": "add-also-known-as", "URIS": A{"x"}}, false},
+		{"bytes:action-value-other-case", M{"action": "Add-Public-Keys", "publicKeys": A{}}, false},
+		{"bytes:action-with-trailing-space", M{"action": "replace ", "document": M{}}, false},
 	} {
 		b, _ := json.Marshal(c.v)
 		_, err := patch.FromBytes(b)
